@@ -157,6 +157,11 @@ class FnSpec:
         self.optcombs = []  # closure numbers whose Option/bool combinator call is inlined (R-OPTCOMB)
         self.forindex = {}  # loop n -> (container expr, start expr)  (R-FORMUT)
         self.closparams = {}  # (closure n, param k) -> type  (R-CLOSPAT)
+        self.bodyghost = None  # ghost declarations placed right after the opening brace of the body
+        self.retainloops = {}  # closure n -> (container expr, invariant text)   (R-RETAIN)
+        self.retainproofs = {}
+        self.fmloops = {}  # closure n -> invariant text   (R-FMLOOP)
+        self.fmloopproofs = {}
         self.header = None  # closurefn: the hand-written signature of the lifted closure (R-LIFT)
         self.assertmacro = False  # R-PANIC for `assert!(E)`: `{ let __aN = E; proof { assert(__aN); } }`
         self.pretailproof = None  # proof text placed in front of the tail expression
@@ -359,6 +364,16 @@ class Generator:
                     spec.loops[cur[1]] = text
                 elif k == "closure":
                     spec.closures[cur[1]] = text
+                elif k == "bodyghost":
+                    spec.bodyghost = text
+                elif k == "retainloop":
+                    spec.retainloops[cur[1][0]] = (cur[1][1], text)
+                elif k == "retainproof":
+                    spec.retainproofs[cur[1]] = text
+                elif k == "fmloop":
+                    spec.fmloops[cur[1]] = text
+                elif k == "fmloopproof":
+                    spec.fmloopproofs[cur[1]] = text
                 elif k == "tailproof":
                     spec.tailproof = text
                 elif k == "pretailproof":
@@ -452,6 +467,19 @@ class Generator:
                         spec.header = arg.strip()
                     elif cmd == "assertmacro":
                         spec.assertmacro = True
+                    elif cmd == "bodyghost":
+                        cur = ("bodyghost", None, None)
+                    elif cmd == "retainloop":
+                        m = re.match(r'(\d+)\s+"([^"]*)"\s*$', arg)
+                        if not m:
+                            raise RuntimeError("bad retainloop directive: %r" % d)
+                        cur = ("retainloop", (int(m.group(1)), m.group(2)), None)
+                    elif cmd == "retainproof":
+                        cur = ("retainproof", int(arg), None)
+                    elif cmd == "fmloop":
+                        cur = ("fmloop", int(arg), None)
+                    elif cmd == "fmloopproof":
+                        cur = ("fmloopproof", int(arg), None)
                     elif cmd == "tailproof":
                         cur = ("tailproof", None, None)
                     elif cmd == "pretailproof":
@@ -716,6 +744,37 @@ class Generator:
                 if call.get("args") and call["args"][-1] == c["span"]:
                     return c, call
             raise Undecided("optcomb: closure %d is not the last argument of a method call" % n)
+        if spec.bodyghost is not None and not spec.external:
+            common.append((it["body"][0] + 1, it["body"][0] + 1, "\n" + spec.bodyghost + "\n"))
+        # R-RETAIN: `X.retain(|p| BODY)` => the predicate evaluated on every item in order, then the flagged items kept
+        for n, (cont, inv) in spec.retainloops.items():
+            c, call = clos_call(n)
+            if call["name"] != "retain" or len(call["args"]) != 1 or len(c["params"]) != 1 or c["params"][0]["ident"] is None or c["params"][0]["refdepth"] != 0:
+                raise Undecided("retainloop: closure %d is not the argument of `.retain(|p| …)`" % n)
+            if re.sub(r"\s+", "", src[call["recv"][0]:call["recv"][1]].decode()) != re.sub(r"\s+", "", cont):
+                raise Undecided("retainloop: the receiver is not `%s`" % cont)
+            if not c["body_is_block"]:
+                raise Undecided("retainloop: closure body is not a block")
+            pv = c["params"][0]["ident"]
+            pre = ("{ let mut __mask = RetainMask::new(); let mut __k: usize = 0; while __k < %s.len()\n%s\n{ let %s = %s.nth_ref(__k); let __b: bool = " % (cont, inv, pv, cont))
+            suf = (";\n proof {\n%s\n } __mask.push(__b); __k += 1; }\n %s.retain_mask(__mask); }" % (spec.retainproofs.get(n, ""), cont))
+            common.append((call["span"][0], c["body"][0], pre))
+            common.append((c["body"][1], call["span"][1], suf))
+            self.log.append({"rule": "R-RETAIN", "site": site, "what": "`%s.retain(closure %d)` => evaluate the predicate on every item in order, then retain_mask" % (cont, n)})
+        # R-FMLOOP: `E.into_iter().filter_map(|p| BODY).collect()` => a loop that takes the items in order and pushes the Some results
+        for n, inv in spec.fmloops.items():
+            c, call = clos_call(n)
+            coll = next((x for x in it["calls"] if x["name"] == "collect" and x["recv"] == call["span"] and not x["args"]), None)
+            into = next((x for x in it["calls"] if x["name"] == "into_iter" and x["span"] == call["recv"] and not x["args"]), None)
+            if call["name"] != "filter_map" or coll is None or into is None or len(c["params"]) != 1 or c["params"][0]["ident"] is None or c["params"][0]["refdepth"] != 0 or not c["body_is_block"]:
+                raise Undecided("fmloop: closure %d is not in `E.into_iter().filter_map(|p| { … }).collect()`" % n)
+            e = src[into["recv"][0]:into["recv"][1]].decode()
+            pv = c["params"][0]["ident"]
+            pre = ("{ let mut __it = %s.into_iter(); let mut __out = Vector::new(); let mut __k: usize = 0; while !__it.is_done()\n%s\n{ let %s = __it.take_next(); let __r = " % (e, inv, pv))
+            suf = (";\n proof {\n%s\n } match __r { Some(__x) => { __out.push_back(__x); } None => {} } __k += 1; }\n __out }" % spec.fmloopproofs.get(n, ""))
+            common.append((coll["span"][0], c["body"][0], pre))
+            common.append((c["body"][1], coll["span"][1], suf))
+            self.log.append({"rule": "R-FMLOOP", "site": site, "what": "`%s.into_iter().filter_map(closure %d).collect()` => loop over the items in order" % (e, n)})
         oc = [(n,) + clos_call(n) for n in spec.optcombs]
         oc.sort(key=lambda x: -(x[2]["span"][1] - x[2]["span"][0]))  # outer calls first (insertions at the same offset keep this order)
         for n, c, call in oc:
@@ -836,7 +895,7 @@ class Generator:
             self.emit(text)
             end = self.lineno() - 1
             if not spec.external:
-                self.obligations.append({"id": oid, "fn": site, "vname": nm, "case": case["label"] if case else None, "props": props, "start": start, "end": end, "posed": True, "source": spec.file, "clauses": ens})
+                self.obligations.append({"id": oid, "fn": site, "vname": nm, "case": case["label"] if case else None, "props": props, "start": start, "end": end, "posed": True, "source": spec.file, "clauses": ens, "callees": callees_of(it)})
             emitted_any = True
         if spec.view and any(sfx for sfx, _, _, _ in self.copies(spec)):
             self.emit_view(spec, src, it, base, site)
@@ -889,7 +948,7 @@ class Generator:
             start = self.lineno()
             self.emit(header + spec_text + "{\n" + body + "\n}")
             end = self.lineno() - 1
-            self.obligations.append({"id": oid, "fn": site, "vname": nm, "case": case["label"] if case else None, "props": props, "start": start, "end": end, "posed": True, "source": spec.file, "clauses": ens})
+            self.obligations.append({"id": oid, "fn": site, "vname": nm, "case": case["label"] if case else None, "props": props, "start": start, "end": end, "posed": True, "source": spec.file, "clauses": ens, "callees": callees_of(it, c["body"])})
             emitted_any = True
 
     def emit_view(self, spec, src, it, base, site):
@@ -928,6 +987,25 @@ class Generator:
 
 
 ASSUME_PAT = re.compile(r"\b(assume\s*\(|admit\s*\(|external_body|assume_specification|axiom\b|external_fn_specification|external_type_specification|\bexternal\b)")
+
+
+def callees_of(it, span=None):
+    """names of everything the function (or the part of it inside `span`) calls: methods, path calls, macros (with the
+    `;` shape). Used to tell a proof that broke from a function that now calls something it did not call before."""
+    def inside(sp):
+        return span is None or (sp[0] >= span[0] and sp[1] <= span[1])
+    out = set()
+    for c in it.get("calls", []):
+        if inside(c["span"]):
+            out.add("." + c["name"])
+    for c in it.get("pathcalls", []):
+        last = c["name"].split("::")[-1]
+        if inside(c["span"]) and not last[:1].isupper():
+            out.add(c["name"])
+    for m in it.get("macros", []):
+        if inside(m["span"]):
+            out.add(m["name"] + "!" + (";" if m.get("semi") else ""))
+    return sorted(out)
 
 
 def assumption_scan(text):
